@@ -544,10 +544,13 @@ def c08_idle(spec, obs, sc=0, cal=None):
                     break
         else:
             deadline = obs["pend"]
-            own_end = t.get("end") or next((deps.node[a].get("end") for a in deps.ancestors(fid) if deps.node[a].get("end")), None)
-            if own_end:
-                deadline = min(deadline, parse_date(own_end))
+            inherited_end = next((deps.node[a].get("end") for a in deps.ancestors(fid) if deps.node[a].get("end")), None)
+            if inherited_end:
+                deadline = min(deadline, parse_date(inherited_end))
+            if t.get("end"):
+                deadline = min(deadline, parse_date(t["end"]))
             else:
+                # (a deadline inherited from a dated container does not switch the task's successors off)
                 # successors: tasks having an on-end edge to fid
                 for other in deps.leaves():
                     for p, k, g in deps.edges(other):
